@@ -1,0 +1,31 @@
+// +build verif
+
+package mgmthttp
+
+// Contracts for the verifier in /verif (comment-only; see /verif/DESIGN.md).
+
+/*@
+func MgmtApi.CreateBackup
+  modifies everything
+func MgmtApi.ListBackups
+  modifies everything
+func MgmtApi.DeleteBackup
+  modifies everything
+
+func ManageBackup.$1
+  props C11 C16
+  requires !isnil(api) && !isnil(w) && r != nil && r.URL != nil
+  modifies everything
+func CreateBackup
+  props C11 C16
+  requires !isnil(api) && !isnil(w) && r != nil
+  modifies everything
+func DeleteBackup
+  props C11 C16
+  requires !isnil(api) && !isnil(w) && r != nil && r.URL != nil
+  modifies everything
+func ListBackups.$1
+  props C11 C16
+  requires !isnil(api) && !isnil(w) && r != nil
+  modifies everything
+@*/
